@@ -35,9 +35,11 @@ func genRPNElementByOp(logicalOp influxql.Token, value *FieldRef, res *RPNElemen
 	case influxql.LT:
 		res.op = rpn.InRange
 		res.rg = createRightBounded(value, false, false)
+		res.rg.turnOpenRangeIntoClosed()
 	case influxql.GT:
 		res.op = rpn.InRange
 		res.rg = createLeftBounded(value, false, false)
+		res.rg.turnOpenRangeIntoClosed()
 	case influxql.LTE:
 		res.op = rpn.InRange
 		res.rg = createRightBounded(value, true, false)
